@@ -6,6 +6,25 @@
 namespace glm{
 namespace detail
 {
+	template<typename genFIType, bool /*integer*/>
+	struct compute_negate
+	{
+		GLM_FUNC_QUALIFIER GLM_CONSTEXPR static genFIType call(genFIType x)
+		{
+			return -x;
+		}
+	};
+
+	template<typename genFIType>
+	struct compute_negate<genFIType, true>
+	{
+		GLM_FUNC_QUALIFIER GLM_CONSTEXPR static genFIType call(genFIType x)
+		{
+			// Negate on the unsigned type: -x overflows for the most negative value of a signed integer type
+			return static_cast<genFIType>(static_cast<typename make_unsigned<genFIType>::type>(0) - static_cast<typename make_unsigned<genFIType>::type>(x));
+		}
+	};
+
 	template<typename genFIType, bool /*signed*/>
 	struct compute_abs
 	{};
@@ -19,7 +38,7 @@ namespace detail
 				std::numeric_limits<genFIType>::is_iec559 || GLM_CONFIG_UNRESTRICTED_FLOAT || std::numeric_limits<genFIType>::is_signed,
 				"'abs' only accept floating-point and integer scalar or vector inputs");
 
-			return x >= genFIType(0) ? x : -x;
+			return x >= genFIType(0) ? x : compute_negate<genFIType, std::numeric_limits<genFIType>::is_integer>::call(x);
 			// TODO, perf comp with: *(((int *) &x) + 1) &= 0x7fffffff;
 		}
 	};
